@@ -45,8 +45,20 @@ class SMSpec(Spec):
         raise NotImplementedError
 
     def path_fn(self, c, job):
+        if job.get("step"):
+            r = smc.run_step(c, job)
+            if r is None:
+                c.reach("inductive-step-skipped")
+                return
+            cl.clauses_step(c, r[0], r[1], r[2], self.id)
+            return
         H = smc.run_history(c, job)
         self.clause_fn(c, H)
+
+    def stepjob(self, shape, budget=1, variant=0):
+        j = mkjob(shape, 1, budget, variant=variant)
+        j["step"] = True
+        return j
 
     def bounds(self, tier):
         js = self.jobs(tier)
@@ -72,9 +84,11 @@ class C01(SMSpec):
     def jobs(self, tier):
         if tier == "quick":
             return ([mkjob(s, 3, 2) for s in ("S1", "S3", "S4", "S5")] + [mkjob("S4", 2, 1, ext_per_iter=2, variant=3), mkjob("S3", 2, 1, ext_per_iter=2, variant=3)]
-                    + [mkjob("S1", 2, 2, double_nsn=True, variant=4), mkjob("S3", 2, 1, double_nsn=True, variant=5)])
+                    + [mkjob("S1", 2, 2, double_nsn=True, variant=4), mkjob("S3", 2, 1, double_nsn=True, variant=5)]
+                    + [self.stepjob(s) for s in ("S3", "S4")])
         return ([mkjob(s, 4, 2, variant=1) for s in ("S1", "S3", "S4", "S5")]
-                + [mkjob(s, 3, 3, ext_per_iter=2, nsn_depth=2, variant=2, double_nsn=True) for s in ("S1", "S3", "S4", "S5")])
+                + [mkjob(s, 3, 3, ext_per_iter=2, nsn_depth=2, variant=2, double_nsn=True) for s in ("S1", "S3", "S4", "S5")]
+                + [self.stepjob(s, 2, 1) for s in ("S1", "S3", "S4", "S5", "S8")])
 
     def reach_required(self, tier):
         return ["regular-invoked", "suppressed-no-engage", "stopped-iteration-with-default", "engaged-iteration", "double-nsn"]
